@@ -2,6 +2,13 @@
 //! Conventions: see README.md in this directory. Every harness is listed in harnesses.json.
 #![allow(dead_code, unused_imports, unused_macros)]
 
+pub mod castref;
 pub mod conv;
 #[cfg(kani)]
+mod c09_casts;
+#[cfg(kani)]
+mod c13_tryfrom;
+#[cfg(kani)]
 mod c14_float;
+#[cfg(kani)]
+mod c19_numtraits;
